@@ -281,6 +281,60 @@ func SharedSets(p *core.Program, r *core.Report, rule string) {
 	}
 	r.RuleCounts[rule+"-sites"] = nSites
 	r.Floor(rule+"-sites", 30)
+	// stores INTO a holder field: the stored pointer must be fresh (constructor, Copy, library result) - a holder
+	// that aliases another object's set is modified together with it by the holder's own owner function
+	nStores := 0
+	for _, fn := range a.fns {
+		if fn.Pkg != nil && fn.Pkg.Pkg.Path() == core.PkgCommon {
+			continue
+		}
+		fkey := ssaKey(fn)
+		for _, b := range fn.Blocks {
+			for _, in := range b.Instrs {
+				st, ok := in.(*ssa.Store)
+				if !ok {
+					continue
+				}
+				fa, ok := st.Addr.(*ssa.FieldAddr)
+				if !ok {
+					continue
+				}
+				t := fa.X.Type()
+				if pt, isP := t.Underlying().(*types.Pointer); isP {
+					t = pt.Elem()
+				}
+				name := ""
+				if nt, isN := t.(*types.Named); isN {
+					name = nt.Obj().Name()
+				}
+				stt, isS := t.Underlying().(*types.Struct)
+				if !isS || fa.Field >= stt.NumFields() {
+					continue
+				}
+				fnm := name + "." + stt.Field(fa.Field).Name()
+				if !holderFields[fnm] {
+					continue
+				}
+				nStores++
+				o := map[string]bool{}
+				a.origins(fn, st.Val, map[ssa.Value]bool{}, o)
+				var shared []string
+				for k := range o {
+					if k != "fresh" {
+						shared = append(shared, k)
+					}
+				}
+				sort.Strings(shared)
+				construct := fmt.Sprintf("%s: the set stored into %s is fresh", fkey, fnm)
+				if len(shared) == 0 {
+					r.OK(rule+"-store", construct, p.Pos(in.Pos()), "constructor / Copy / library result")
+				} else {
+					r.Bad(rule+"-store", construct, p.Pos(in.Pos()), fmt.Sprintf("a long-lived holder (%s) is made to point at a set that something else also holds (%s): the holder's owner function later unions into it and thereby changes the other object's exposure as well", fnm, strings.Join(shared, ", ")))
+				}
+			}
+		}
+	}
+	r.RuleCounts[rule+"-stores"] = nStores
 }
 
 // mutatedArgPositions: argument positions (in SSA call args, receiver first for static method calls) that the callee mutates.
